@@ -57,11 +57,21 @@ def _kind_of(key, tier):
 
 
 def run_shard(spec, res):
+    if spec["tier"] == "thorough" and spec.get("shard") == 1:
+        # the repository's own test-suite re-run with M-state installed: every UPState call made by the tests is judged
+        from vk.mon import suite as _suite
+
+        _suite.feed(res, PROPERTY, _suite.run_suite(("state",)), "state:judged")
     for key in spec["cases"]:
         run_case(key, spec["tier"], res)
 
 
 def replay(witness, res):
+    if witness.get("suite"):
+        from vk.mon import suite as _suite
+
+        _suite.replay_suite(res, PROPERTY, ("state",), "state:judged", witness)
+        return
     run_case(witness["case_key"], witness.get("tier", "quick"), res)
 
 
